@@ -284,7 +284,7 @@ func TestC19(t *testing.T) {
 			return q
 		}).Filter(func(q [4]string) bool { return c19Valid(c19Effective(q)) })
 	}
-	col.Rapid(eq.Sub, env.PerShard(env.Pick(30000, 1000000)), func(t *rapid.T) {
+	col.Rapid(eq.Sub, env.PerShard(env.Pick(150000, 1500000)), func(t *rapid.T) {
 		q := genQuad(punct).Draw(t, "quadruple")
 		p := hx.GenProgram(t, prof)
 		c := &c19Case{D: q, P: p, Fail: rapid.IntRange(0, 3).Draw(t, "fail")}
@@ -299,7 +299,7 @@ func TestC19(t *testing.T) {
 
 	txt := c19Text.On(col, "rapid: engines with non-default delimiters (same generators) given text that contains the default delimiter strings ({{ x }}, {% if y %}, {%- raw -%}, lone {{ and %}); oracle: the text is emitted verbatim around a custom-delimited object. Quadruples that contain {, } or % are excluded. Distinct by (quadruple, text)", false)
 	texts := []string{"{{ x }}", "{% if y %}", "a {{ 1 }} b {% endif %}", "{%- raw -%}", "{{", "%}", "}} {%", "{{- 2 -}}\n{% comment %}"}
-	col.Rapid(txt.Sub, env.PerShard(env.Pick(5000, 200000)), func(t *rapid.T) {
+	col.Rapid(txt.Sub, env.PerShard(env.Pick(30000, 300000)), func(t *rapid.T) {
 		// no { } % here, and never an empty (= default) position: the defaults must not be delimiters
 		q := genQuad(punctNoDefault).Filter(func(q [4]string) bool { return q[0] != "" && q[1] != "" && q[2] != "" && q[3] != "" }).Draw(t, "quadruple")
 		c := &c19TextCase{D: q, Text: rapid.SampledFrom(texts).Draw(t, "text")}
